@@ -55,8 +55,6 @@ structure SubSt where
   pc : SubPc := .idle
   ctxCancelled : Bool := false
   ch : Chan := {}
-  topics : List Topic := []
-  lastID : Option PubId := none
   /-- ghost: every call made on this subscription's MessageWriter, in order -/
   calls : List Call := []
   /-- ghost: calls made by the replayer during Replay (a prefix of `calls`) -/
@@ -75,8 +73,12 @@ deriving DecidableEq, Repr
 
 structure PubSt where
   pc : PubPc := .idle
-  topics : List Topic := []
 deriving DecidableEq, Repr
+
+/-- The arguments of the calls, fixed up front: topics of every subscription and publication. -/
+structure Cfg where
+  subTopics : SubId → List Topic
+  pubTopics : PubId → List Topic
 
 inductive ShutPc
   | idle | start | waiting | returned (r : Option Err)
@@ -182,7 +184,7 @@ def closeAll : List SubId → St → St
 
 def bad (s : St) : Bool := s.joe == .panicked || s.joe == .blocked
 
-def step (s : St) : Label → Option St
+def step (c : Cfg) (s : St) : Label → Option St
   | .subCall i =>
     if (s.subs i).pc = .idle then some (setSub s i { s.subs i with pc := .start }) else none
   | .subAccept i rc o =>
@@ -221,11 +223,11 @@ def step (s : St) : Label → Option St
   | .pubCall p =>
     if (s.pubs p).pc = .idle then some (setPub s p { s.pubs p with pc := .start }) else none
   | .pubNoTopic p =>
-    if (s.pubs p).pc = .start ∧ (s.pubs p).topics = [] then
+    if (s.pubs p).pc = .start ∧ c.pubTopics p = [] then
       some (setPub s p { s.pubs p with pc := .returned (some .noTopic) })
     else none
   | .pubAccept p o =>
-    if (s.pubs p).pc = .start ∧ s.joe = .idle ∧ (s.pubs p).topics ≠ [] then
+    if (s.pubs p).pc = .start ∧ s.joe = .idle ∧ c.pubTopics p ≠ [] then
       if ¬ s.replayer ∧ o ≠ .ok 0 then none else
       let e : Option Err := if o = .err then some (.put p) else none
       let store := match o with
@@ -235,10 +237,10 @@ def step (s : St) : Label → Option St
         replayer := s.replayer && o != .panic,
         store := store,
         log := s.log ++ [p],
-        joe := .fanout p (s.subscribers.filter fun i => topicsIntersect (s.subs i).topics (s.pubs p).topics) }
+        joe := .fanout p (s.subscribers.filter fun i => topicsIntersect (c.subTopics i) (c.pubTopics p)) }
     else none
   | .pubClosedEarly p =>
-    if (s.pubs p).pc = .start ∧ (s.pubs p).topics ≠ [] ∧ s.doneClosed then
+    if (s.pubs p).pc = .start ∧ c.pubTopics p ≠ [] ∧ s.doneClosed then
       some (setPub s p { s.pubs p with pc := .returned (some .closed) })
     else none
   | .pubRecv p =>
@@ -293,14 +295,9 @@ def step (s : St) : Label → Option St
     else none
   | .shutCancel k => some (setShut s k { s.shuts k with ctxDone := true })
 
-/-- An initial state: nothing called yet; the topics and presented IDs of the calls are fixed
-up front (they are arguments of the calls). -/
-def init (subTopics : SubId → List Topic) (subLast : SubId → Option PubId) (pubTopics : PubId → List Topic)
-    (replayer : Bool) : St :=
-  { replayer := replayer
-    subs := fun i => { topics := subTopics i, lastID := subLast i }
-    pubs := fun p => { topics := pubTopics p }
-    shuts := fun _ => {} }
+/-- The initial state: nothing called yet. -/
+def init (replayer : Bool) : St :=
+  { replayer := replayer, subs := fun _ => {}, pubs := fun _ => {}, shuts := fun _ => {} }
 
 def IsInit (s : St) : Prop :=
   s.joe = .idle ∧ s.subscribers = [] ∧ s.store = [] ∧ s.doneClosed = false ∧ s.closedClosed = false ∧ s.log = [] ∧
@@ -309,14 +306,14 @@ def IsInit (s : St) : Prop :=
   (∀ p, (s.pubs p).pc = .idle) ∧ (∀ k, (s.shuts k).pc = .idle ∧ (s.shuts k).ctxDone = false)
 
 /-- run a list of labels; `none` if some label is not enabled -/
-def run (s : St) : List Label → Option St
+def run (c : Cfg) (s : St) : List Label → Option St
   | [] => some s
-  | l :: ls => match step s l with
-    | some s' => run s' ls
+  | l :: ls => match step c s l with
+    | some s' => run c s' ls
     | none => none
 
-inductive Reachable : St → Prop
-  | init {s} : IsInit s → Reachable s
-  | step {s s' l} : Reachable s → step s l = some s' → Reachable s'
+inductive Reachable (c : Cfg) : St → Prop
+  | init {s} : IsInit s → Reachable c s
+  | step {s s' l} : Reachable c s → step c s l = some s' → Reachable c s'
 
 end GoSSE.Model.Joe
